@@ -126,11 +126,21 @@ void prop(const Case& cs) {
   fam::Bytes img = obj->bytes(0, variant);
   std::string full_obs = obj->observe();
   bool has_wrap = !obj->extra_view(img).empty();
-  if (img.size() > 20000) { vf::label("image-too-large-skipped"); return; }
+  if (img.size() > 2000000) { vf::label("image-too-large-skipped"); return; }
   // fault list
   std::vector<Fault> faults;
   uint64_t excluded_large_config = 0;
-  for (int path = 0; path < (has_wrap ? 3 : 2); ++path) for (size_t L = 0; L < img.size(); ++L) faults.push_back(Fault{path, 0, L, 0});
+  if (img.size() <= 20000) {
+    for (int path = 0; path < (has_wrap ? 3 : 2); ++path) for (size_t L = 0; L < img.size(); ++L) faults.push_back(Fault{path, 0, L, 0});
+  } else {
+    // large images (thousands of items in one level): the first and last 96 prefix lengths and a case-derived sample of 400 in between, per path
+    std::set<size_t> lens;
+    for (size_t L = 0; L < 96; ++L) { lens.insert(L); lens.insert(img.size() - 1 - L); }
+    vf::Rng pr(vf::mix64(static_cast<uint64_t>(cs.get("rnd", 1)) * 977 + img.size()));
+    while (lens.size() < 592) lens.insert(static_cast<size_t>(pr.below(img.size())));
+    for (int path = 0; path < (has_wrap ? 3 : 2); ++path) for (size_t L : lens) faults.push_back(Fault{path, 0, L, 0});
+    vf::label("large-image-sampled-prefixes");
+  }
   size_t pre = preamble_len(f, img);
   for (int path = 0; path < 2; ++path) for (size_t p = 0; p < pre; ++p) {
     uint8_t b = img[p];
@@ -241,13 +251,24 @@ void prop(const Case& cs) {
 rc::Gen<Case> gen() {
   using namespace vf;
   // small states: images up to a few KiB with every structural region present
-  auto nGen = rc::gen::weightedOneOf<int64_t>({{2, range(0, 1)}, {2, range(2, 12)}, {4, range(13, 120)}, {2, range(120, 600)}});
+  auto nGen = rc::gen::weightedOneOf<int64_t>({{8, range(0, 1)}, {8, range(2, 12)}, {16, range(13, 120)}, {8, range(120, 600)}, {1, range(3000, 5999)}});
   auto u = rc::gen::map(rc::gen::tuple(nGen, range(0, 7), range(0, 1 << 20), range(0, 63)), [](std::tuple<int64_t, int64_t, int64_t, int64_t> t) { return Op{"u", {std::get<0>(t), std::get<1>(t), std::get<2>(t), std::get<3>(t)}}; });
   auto m = rc::gen::map(rc::gen::tuple(nGen, range(0, 7), range(0, 1 << 20), range(0, 63)), [](std::tuple<int64_t, int64_t, int64_t, int64_t> t) { return Op{"m", {std::get<0>(t), std::get<1>(t), std::get<2>(t), std::get<3>(t)}}; });
   auto mk = rc::gen::map(rc::gen::tuple(nGen, range(0, 7), range(0, 1 << 20), range(0, 63)), [](std::tuple<int64_t, int64_t, int64_t, int64_t> t) { return Op{"mk", {std::get<0>(t), std::get<1>(t), std::get<2>(t), std::get<3>(t)}}; });
   auto ops = oplist(choose({{6, u}, {1, m}, {1, mk}}), 1, 0.03);
   return make_case({{"fam", range(0, fam::NFAM - 1)}, {"a", range(0, 1 << 16)}, {"b", range(0, 1 << 16)}, {"c", range(0, 1 << 16)},
-                    {"seed", rc::gen::weightedOneOf<int64_t>({{3, rc::gen::just<int64_t>(0)}, {1, range(1, 1000)}})}, {"rnd", range(1, 1 << 20)}, {"variant", range(0, 1)}, {"t", range(0, 1)}, {"ls", range(0, 1)}, {"bs", range(0, 1)}, {"hp", rc::gen::weightedOneOf<int64_t>({{2, rc::gen::just<int64_t>(0)}, {1, range(1, 7)}})}},
+                    {"seed", rc::gen::weightedOneOf<int64_t>({{3, rc::gen::just<int64_t>(0)}, {1, range(1, 1000)}})}, {"rnd", range(1, 1 << 20)}, {"variant", range(0, 1)}, {"t", range(0, 1)}, {"ls", range(0, 1)}, {"bs", range(0, 1)}, {"hp", rc::gen::weightedOneOf<int64_t>({{2, rc::gen::just<int64_t>(0)}, {1, range(1, 7)}})},
+                    {"bk", rc::gen::weightedOneOf<int64_t>({{6, rc::gen::just<int64_t>(0)}, {1, rc::gen::just<int64_t>(1)}})}},
+                   ops);
+}
+// large states of the quantile families with a large k: one level holds thousands of items, the image has tens of kilobytes
+rc::Gen<Case> gen_big() {
+  using namespace vf;
+  auto nGen = range(2500, 5999);
+  auto u = rc::gen::map(rc::gen::tuple(nGen, range(0, 7), range(0, 1 << 20), range(0, 63)), [](std::tuple<int64_t, int64_t, int64_t, int64_t> t) { return Op{"u", {std::get<0>(t), std::get<1>(t), std::get<2>(t), std::get<3>(t)}}; });
+  auto ops = rc::gen::mapcat(range(1, 3), [u](int64_t n) { return rc::gen::container<std::vector<Op>>(static_cast<size_t>(n), u); });
+  return make_case({{"fam", range(fam::F_KLL_F, fam::F_QS_S)}, {"a", range(0, 1 << 16)}, {"b", range(0, 1 << 16)}, {"c", range(0, 1 << 16)},
+                    {"seed", rc::gen::just<int64_t>(0)}, {"rnd", range(1, 1 << 20)}, {"variant", range(0, 1)}, {"bs", range(0, 1)}, {"bk", rc::gen::just<int64_t>(1)}},
                    ops);
 }
 
@@ -255,10 +276,10 @@ rc::Gen<Case> gen() {
 
 int main(int argc, char** argv) {
   return vf::main_driver(argc, argv, "C11", "c11_faults",
-                         "fault enumeration: case = one valid image (family out of 22 concrete types, format variant, small generated state); faults = EVERY strict "
+                         "fault enumeration: case = one valid image (family out of 22 concrete types, format variant, small generated state; sub big = quantile families with k ~ 1000 and thousands of items, prefixes sampled); faults = EVERY strict "
                          "prefix length on the bytes / stream / wrap paths + every documented preamble byte x {0x00,0xFF,b^1,b^0x80,b+1,b-1} on bytes and stream; "
                          "each fault runs in a forked child with a CPU-time limit, the parent classifies deaths by sanitizer signature and resumes behind them; "
                          "non-trivial = image longer than 8 bytes (prefixes cut inside multi-byte fields); evaluations counts images, counter 'faults' the injected faults; "
                          "distinct = distinct case text",
-                         {{"faults", gen, prop, 1.0}});
+                         {{"faults", gen, prop, 1.0}, {"big", gen_big, prop, 0.02, 100}});
 }
